@@ -155,9 +155,26 @@ def gen(tier, seed, info):
         yield rbgen.case_line(L, C, ops + tail)
     info["random_cases"] = nrand
     info["op_kinds"] = kinds
+    # (6) the mock terminal's print on its own (tp): every cursor column incl. the last one and the position
+    # behind it, texts of every width class, NUL / control as first code point (the terminal must return)
+    ntp = 0
+    tp_texts = [[0x41], [0xff21], [0x41, 0x301], [0xff21, 0x42], [0x41, 0xff21], [0x301, 0x41], [0x1f3e0, 0x300, 0x41],
+                [0x41, 0x42, 0x43, 0x44], [0], [0, 0x41], [0x01], [0x7f, 0x41], [0x85]]
+    for t in tp_texts:
+        for tl, tc in ((1, 4), (2, 3), (1, 1)):
+            for gc in range(tc):
+                for gl in range(tl):
+                    ntp += 1
+                    yield rbgen.case_line(1, 1, ["tp %d %d %d %d %s" % (tl, tc, gl, gc, rbgen.text_tok(t))])
+    for _ in range(300 if tier == "quick" else 20000):
+        tl, tc = rnd.randint(1, 3), rnd.randint(1, 8)
+        t = rbgen.rand_text(rnd, rnd.randint(1, tc + 3))
+        ntp += 1
+        yield rbgen.case_line(1, 1, ["tp %d %d %d %d %s" % (tl, tc, rnd.randint(0, tl - 1), rnd.randint(0, tc - 1), rbgen.text_tok(t))])
+    info["terminal_print_cases"] = ntp
 
 
-ARITY = dict(rbgen.ARITY, fl=5, flm=5, flx=2, lct=0)
+ARITY = dict(rbgen.ARITY, fl=5, flm=5, flx=2, lct=0, tp=5)
 
 
 def classify(case, obs):
@@ -180,6 +197,14 @@ def classify(case, obs):
 def terminal_fits(case):
     t = case.split()
     L, C = int(t[0]), int(t[1])
+    if "tp" in t:
+        i = t.index("tp")
+        # keep the shape the model covers: valid text, or one that is stuck at its first code point
+        cps = [int(h, 16) for h in t[i + 5].split(".")] if t[i + 5] != "-" else []
+        if 0 in cps:
+            cps = cps[:cps.index(0)]
+        ok = all(rbgen.cpw(c) >= 0 for c in cps) or (cps and rbgen.cpw(cps[0]) < 0)
+        return ok and int(t[i + 1]) >= 1 and int(t[i + 2]) >= 1 and 0 <= int(t[i + 3]) < int(t[i + 1]) and 0 <= int(t[i + 4]) < int(t[i + 2])
     for i, x in enumerate(t):
         if x in ("fl", "flm", "flx") and (int(t[i + 1]) < L or int(t[i + 2]) < C):
             return False
